@@ -328,8 +328,8 @@ def _aff_str(terms):
 
 def gen_affine_einsum(rng, neg_p=0.15, two_d_p=0.25, extra_p=0.25, same_p=0.1, sum_p=0.1):
     """O[q] = I[a*q + b*s] * F[s] and 2-D variants; returns dict with access coefficients."""
-    a = rng.choice([1, 1, 1, 2, 2, 3])
-    b = rng.choice([1, 1, 1, 2, 3])
+    a = rng.choice([1, 1, 1, 2, 2, 3, 4])
+    b = rng.choice([1, 1, 1, 2, 2, 3, 4])
     if rng.random() < neg_p:
         b = -b
     acc = {"W": [(a, "q"), (b, "s")]}
@@ -377,7 +377,7 @@ def affine_extents(rng, es, qmax=7, smax=3):
     return ext
 
 
-def affine_mapping(rng, es, part_p=0.5, derive_s_p=0.25):
+def affine_mapping(rng, es, part_p=0.5, derive_s_p=0.33):
     """loop order over {Q or W, S} (and {P or H, R}); optional shape partitioning of Q with W following."""
     out = es["out"]
     m = {"rank-order": {}, "loop-order": {}}
